@@ -217,7 +217,7 @@ Definition src2_response_args (pick_binding_ : pyval -> pyval -> pyval -> pyval 
    | BErr => PErr
    end)))).
 
-(* saml2/client_base.py:Base._sso_location, lines 217-238 *)
+(* saml2/client_base.py:Base._sso_location, lines 225-246 *)
 Definition src2_sso_location (sso_service : pyval -> pyval -> pyval) (with_descriptor_ : pyval -> pyval) (locations_ : pyval -> pyval) (next_ : pyval -> pyval -> pyval) (v_self : pyval) (v_entityid : pyval) (v_binding : pyval) : pyval :=
   let v_srvs := PErr in
   let v_eids := PErr in
@@ -247,7 +247,7 @@ Definition src2_sso_location (sso_service : pyval -> pyval -> pyval) (with_descr
    | BErr => PErr
    end).
 
-(* saml2/mdstore.py:MetadataStore.service, lines 1204-1225 *)
+(* saml2/mdstore.py:MetadataStore.service, lines 1205-1226 *)
 Definition src2_store_service (md_service : pyval -> pyval -> pyval -> pyval -> pyval -> pyval) (v_self : pyval) (v_entity_id : pyval) (v_typ : pyval) (v_service : pyval) (v_binding : pyval) : pyval :=
   let v_known_entity := PErr in
   let v__probe := PErr in
@@ -287,7 +287,7 @@ Definition src2_store_service (md_service : pyval -> pyval -> pyval -> pyval -> 
    | ExcS n_7 st_4 => match st_4 with [v__probe; v_srvs; v_known_entity] => (PExc n_7) | _ => PErr end
    end))))).
 
-(* saml2/mdstore.py:MetadataStore.ext_service, lines 1244-1258 *)
+(* saml2/mdstore.py:MetadataStore.ext_service, lines 1245-1259 *)
 Definition src2_store_ext_service (md_ext_service : pyval -> pyval -> pyval -> pyval -> pyval -> pyval) (v_self : pyval) (v_entity_id : pyval) (v_typ : pyval) (v_service : pyval) (v_binding : pyval) : pyval :=
   let v_known_entity := PErr in
   let v_srvs := PErr in
